@@ -298,7 +298,7 @@ func (w *world) apply(stim string, f func()) {
 			w.mon.onSub(l.subject, false)
 		}
 	}
-	sort.Strings(rec.Obs)
+	rec.Obs = canonObs(rec.Obs)
 	if len(rec.Wire) < 2 {
 		rec.Wire = nil
 	}
@@ -684,4 +684,46 @@ func absEvent(subject, payload string) string {
 // modelLine is what the implementation showed for a step, in the format of the model driver.
 func (r *stepRec) modelLine() string {
 	return strings.Join(r.Obs, " ;; ") + " ## " + strings.Join(r.Snap, " ;; ")
+}
+
+// canonObs orders the observations of one step: frames grouped by client in wire order, except
+// that runs of consecutive event frames without a resource set are ordered by resource id (the
+// order in which the queues of different resources are flushed is Go's map order; the order per
+// resource and relative to every response / hand-over is kept). Everything else is sorted.
+func canonObs(obs []string) []string {
+	var frames, rest []string
+	for _, o := range obs {
+		if strings.HasPrefix(o, "F ") {
+			frames = append(frames, o)
+		} else {
+			rest = append(rest, o)
+		}
+	}
+	sort.SliceStable(frames, func(i, j int) bool {
+		return strings.SplitN(frames[i], " ", 3)[1] < strings.SplitN(frames[j], " ", 3)[1]
+	})
+	isBarrier := func(f string) bool {
+		p := strings.SplitN(f, " ", 4)
+		return len(p) < 4 || p[2] != "ev" || strings.Contains(f, "R{M:") || strings.Contains(f, "R{C:") || strings.Contains(f, "R{E:")
+	}
+	key := func(f string) string { // client + rid of an event frame
+		p := strings.SplitN(f, " ", 5)
+		return p[1] + " " + p[3]
+	}
+	i := 0
+	for i < len(frames) {
+		if isBarrier(frames[i]) {
+			i++
+			continue
+		}
+		j := i
+		for j < len(frames) && !isBarrier(frames[j]) && strings.SplitN(frames[j], " ", 3)[1] == strings.SplitN(frames[i], " ", 3)[1] {
+			j++
+		}
+		seg := frames[i:j]
+		sort.SliceStable(seg, func(a, b int) bool { return key(seg[a]) < key(seg[b]) })
+		i = j
+	}
+	sort.Strings(rest)
+	return append(frames, rest...)
 }
